@@ -196,6 +196,10 @@ impl Lock {
 pub enum Case {
     /// bounded-exhaustive: all histories up to `depth` and every draw outcome for this family
     Exhaustive { machines: Vec<MachineSpec>, depth: u8, fracs: (Fx, Fx) },
+    /// bounded state-graph exploration: breadth-first over the reachable runtime states (deduplicated
+    /// on machine states, remaining limits, counters and the blocking flag), every symbol of the
+    /// alphabet and every draw outcome on each edge; budgets unlimited, clock standing still
+    Graph { machines: Vec<MachineSpec>, max_nodes: u32, max_depth: u8 },
     /// random lock-step
     Random(FwCase),
     /// twin instances and a clone fed identically (everything, incl. all distribution families)
@@ -217,6 +221,26 @@ fn family(n_machines: std::ops::RangeInclusive<usize>) -> BoxedStrategy<Vec<Mach
     mp.p_trans = [0.3; 13];
     mp.p_trans[8] = 0.4;
     mp.p_trans[9] = 0.5;
+    mp.p_trans[12] = 0.4;
+    proptest::collection::vec(machine(&mp), n_machines).boxed()
+}
+
+fn family_unlimited(n_machines: std::ops::RangeInclusive<usize>) -> BoxedStrategy<Vec<MachineSpec>> {
+    let mut mp = MachineParams {
+        max_states: 3,
+        dist: DistProfile::Const,
+        p_action: 0.8,
+        p_limit: 0.6,
+        p_counter: 0.5,
+        prob_style: 2,
+        w_end: 1,
+        w_signal: 2,
+        budgets: BudgetProfile::Unlimited,
+        ..MachineParams::default()
+    };
+    mp.p_trans = [0.3; 13];
+    mp.p_trans[8] = 0.5;
+    mp.p_trans[9] = 0.6;
     mp.p_trans[12] = 0.4;
     proptest::collection::vec(machine(&mp), n_machines).boxed()
 }
@@ -326,6 +350,7 @@ impl Prop for C05 {
         match case {
             Case::Random(fc) => crate::props::fw_admissible(fc),
             Case::Twin { case, .. } => crate::props::fw_admissible(case),
+            Case::Graph { .. } => false,
             Case::Exhaustive { machines, depth, fracs } => {
                 *depth <= 2
                     && machines.len() <= 2
@@ -337,12 +362,12 @@ impl Prop for C05 {
     }
 
     const ID: &'static str = "C05";
-    const RULE: &'static str = "three layers. 'exhaustive': for each generated family of 1..=3 small machines (<=3 states, probabilities multiples of 1/4, constant distributions, every action kind, limits, counters, SIGNAL/END targets) ALL histories up to the depth bound over the full event alphabet (10 kinds x ids {each machine, unknown}, the empty batch, up to 36 two-event batches) x clock steps {0,+1,+10^6,-1} x EVERY outcome of every draw are executed in lock-step with the reference semantics (actions, all runtime state and the number/order of random draws compared after every call); 'random': larger random machines (<=6 states, arbitrary probabilities, constant or all distribution families) x histories of <=120 calls with batches in lock-step; 'twin': two identically built instances and a mid-history clone, fed from different threads, must return identical actions. Non-trivial (random/twin): history with >=1 internal event and >=1 draw whose outcome was not the first target; (exhaustive): family in which some draw has >=2 outcomes. Distinct = hash of the case.";
+    const RULE: &'static str = "four layers. 'graph': breadth-first exploration of the reachable runtime-state graph of small families (deduplicated on machine states, remaining limits, counters, blocking flag; unlimited budgets, standing clock; up to 3 000 states / depth 8 per family in the quick tier, 40 000 / depth 12 in the thorough tier) with every alphabet symbol and every draw outcome on every edge executed in lock-step; 'exhaustive': for each generated family of 1..=3 small machines (<=3 states, probabilities multiples of 1/4, constant distributions, every action kind, limits, counters, SIGNAL/END targets) ALL histories up to the depth bound over the full event alphabet (10 kinds x ids {each machine, unknown}, the empty batch, up to 36 two-event batches) x clock steps {0,+1,+10^6,-1} x EVERY outcome of every draw are executed in lock-step with the reference semantics (actions, all runtime state and the number/order of random draws compared after every call); 'random': larger random machines (<=6 states, arbitrary probabilities, constant or all distribution families) x histories of <=120 calls with batches in lock-step; 'twin': two identically built instances and a mid-history clone, fed from different threads, must return identical actions. Non-trivial (random/twin): history with >=1 internal event and >=1 draw whose outcome was not the first target; (exhaustive): family in which some draw has >=2 outcomes. Distinct = hash of the case.";
 
     fn profiles(tier: Tier) -> Vec<Profile> {
         match tier {
-            Tier::Quick => vec![prof("exhaustive", 96), prof("random_const", 40_000), prof("random_wild", 20_000), prof("twin", 4_000)],
-            Tier::Thorough => vec![prof("exhaustive_deep", 400), prof("random_const", 600_000), prof("random_wild", 300_000), prof("twin", 60_000)],
+            Tier::Quick => vec![prof("exhaustive", 96), prof("graph", 64), prof("random_const", 40_000), prof("random_wild", 20_000), prof("twin", 4_000)],
+            Tier::Thorough => vec![prof("exhaustive_deep", 400), prof("graph_deep", 300), prof("random_const", 600_000), prof("random_wild", 300_000), prof("twin", 60_000)],
         }
     }
 
@@ -358,6 +383,12 @@ impl Prop for C05 {
                 .boxed(),
             "exhaustive_deep" => (family(1..=3), frac(), frac())
                 .prop_map(|(machines, a, b)| Case::Exhaustive { machines, depth: 3, fracs: (Fx(a), Fx(b)) })
+                .boxed(),
+            "graph" => family_unlimited(1..=2)
+                .prop_map(|machines| Case::Graph { machines, max_nodes: 3_000, max_depth: 8 })
+                .boxed(),
+            "graph_deep" => family_unlimited(1..=3)
+                .prop_map(|machines| Case::Graph { machines, max_nodes: 40_000, max_depth: 12 })
                 .boxed(),
             "random_const" => {
                 let mut mp = MachineParams::default();
@@ -415,6 +446,80 @@ impl Prop for C05 {
                 }
                 if dfs.max_outcomes >= 3 {
                     obs.hit("draw_with_three_or_more_outcomes");
+                }
+                Ok(())
+            }
+            Case::Graph { machines, max_nodes, max_depth } => {
+                use std::collections::{HashSet, VecDeque};
+                let built = build_machines(machines).unwrap_or_else(|e| panic!("generator produced an invalid machine: {e}"));
+                let n = built.len();
+                let fc = FwCase {
+                    machines: machines.clone(),
+                    max_padding_frac: Fx(0.0),
+                    max_blocking_frac: Fx(0.0),
+                    start: 1_000,
+                    words: vec![],
+                    seed: 0,
+                    calls: vec![],
+                };
+                let root = Lock::new(&fc, built)?;
+                let alpha = alphabet(n, machines);
+                type Key = (Vec<(usize, u64, u64, u64)>, bool);
+                let key = |l: &Lock| -> Key {
+                    (l.model.m.iter().map(|m| (m.state, m.limit, m.ca, m.cb)).collect(), l.model.blocking_active)
+                };
+                let mut seen: HashSet<Key> = HashSet::new();
+                seen.insert(key(&root));
+                let mut queue: VecDeque<(Lock, u8, String)> = VecDeque::new();
+                queue.push_back((root, 0, String::new()));
+                let mut executions = 0u64;
+                let mut deepest = 0u8;
+                while let Some((node, d, path)) = queue.pop_front() {
+                    deepest = deepest.max(d);
+                    for events in &alpha {
+                        let call = Call { clock: Clock::Add(0), events: events.clone() };
+                        let mut choices: Vec<usize> = vec![];
+                        loop {
+                            let mut child = node.fork();
+                            let mut ch = Scripted::new(choices.clone());
+                            let ctx = format!("{path} | {events:?} outcomes {choices:?}");
+                            child.step(&call, &mut ch, &ctx)?;
+                            executions += 1;
+                            if executions % 4096 == 0 {
+                                crate::rt::tick();
+                            }
+                            if d + 1 < *max_depth && (seen.len() as u32) < *max_nodes && seen.insert(key(&child)) {
+                                let p = if path.len() < 400 { ctx.clone() } else { format!("(...) | {events:?} outcomes {choices:?}") };
+                                queue.push_back((child, d + 1, p));
+                            }
+                            let mut next: Vec<usize> = (0..ch.arity.len()).map(|i| choices.get(i).copied().unwrap_or(0)).collect();
+                            let mut i = next.len();
+                            loop {
+                                if i == 0 {
+                                    next.clear();
+                                    break;
+                                }
+                                i -= 1;
+                                if next[i] + 1 < ch.arity[i] {
+                                    next[i] += 1;
+                                    next.truncate(i + 1);
+                                    break;
+                                }
+                            }
+                            if next.is_empty() {
+                                break;
+                            }
+                            choices = next;
+                        }
+                    }
+                }
+                obs.add("graph_lockstep_executions", executions);
+                obs.add("graph_states", seen.len() as u64);
+                if deepest >= 4 {
+                    obs.hit("graph_reached_depth_4_or_more");
+                }
+                if seen.len() >= 8 {
+                    obs.nontrivial();
                 }
                 Ok(())
             }
@@ -503,6 +608,8 @@ impl Prop for C05 {
     fn required_classes() -> Vec<&'static str> {
         vec![
             "lockstep_executions",
+            "graph_lockstep_executions",
+            "graph_reached_depth_4_or_more",
             "family_with_probabilistic_draw",
             "internal_event",
             "draw_not_first_target",
@@ -524,6 +631,10 @@ impl Prop for C05 {
         match case {
             Case::Exhaustive { machines, depth, fracs } => serde_json::json!({
                 "layer": "exhaustive", "depth": depth, "fractions": [fracs.0.0, fracs.1.0],
+                "family": machines.iter().filter_map(|m| m.build().ok().map(|m| m.serialize())).collect::<Vec<_>>(),
+            }),
+            Case::Graph { machines, max_nodes, max_depth } => serde_json::json!({
+                "layer": "state graph", "max_nodes": max_nodes, "max_depth": max_depth,
                 "family": machines.iter().filter_map(|m| m.build().ok().map(|m| m.serialize())).collect::<Vec<_>>(),
             }),
             Case::Random(fc) => serde_json::json!({"layer": "random", "case": crate::props::fw_sample(fc)}),
